@@ -86,20 +86,29 @@ CFG = dict(
          "must be identical for min / max / arg-extrema / rank and within 1e-9 relative to the history magnitude otherwise, for all 37 "
          "entry points. nt=0 marks the empty prefix.",
     theorem_hint="Props/C06.v",
-    level_text="Proof (Coq, 25 theorems in Props/C06.v). (A) No look-ahead, bit for bit: the prefix law out(firstn k xs) = firstn k "
+    level_text="Proof (Coq, 37 theorems in Props/C06.v). (A) No look-ahead, bit for bit: the prefix law out(firstn k xs) = firstn k "
                "(out xs) for EVERY add-emit-remove rolling feature over every carrier (no law of the numeric class is used, so it "
                "holds at binary64 too), both driver bodies, every window >= 1 and cut k (moments, ewm, wma, z-score, cov / corr / "
                "regression-on-x over the zipped series, trend regressions); for the slice-form drivers (fdiff) with any stateful "
-               "callback; for ts_vmin / vmax / vargmin / vargmax / vrank (integer carrier, any null dictionary) with explicit "
-               "min_periods at every cut and with omitted min_periods when prefix and series are >= w long (a refutation "
-               "witness shows the DESIGN 5.3 restriction is needed); for shift / vshift / vdiff / vpct_change with every n >= 0 (a "
-               "witness shows n < 0 reads ahead). (B) No dependence on pre-window data: two series whose windows at positions i "
-               "and j coincide give equal outputs there — exactly for min / max / arg-extrema / rank (axiom-free) and for the "
-               "stateless slice form, and in exact arithmetic (option R) for the moment, ewm, wma, cross-sum and trend "
-               "accumulators with ANY emit function (the abstraction relation of the sliding invariant determines the state). "
-               "Partial: min-max normalisation and the regression-residual statistics (index-form callbacks that re-read the "
-               "series) have no Coq prefix / window-only theorem; they are covered by the relational runs only. Tied to the code "
-               "by relational runs on the implementation (all cuts, bit for bit; two histories) plus the model run on every prefix.",
+               "callback; for the INDEX-FORM callbacks that re-read the series through uget, by a generic rule for the window-index "
+               "driver (C06_prefix_index_form_rule: callbacks that agree below the cut and give the same output at the last "
+               "position of the prefix, where the start index may differ) instantiated, at EVERY carrier and null dictionary "
+               "(axiom-free; read-locality of every scan loop plus a warm-up invariant per callback), for ts_vmin / vmax / vargmin "
+               "/ vargmax / vrank (explicit min_periods at every cut, omitted min_periods when prefix and series are >= w long; a "
+               "refutation witness shows the DESIGN 5.3 restriction is needed), ts_vminmaxnorm (every cut, any min_periods) and "
+               "ts_vregx_resid_mean / std / skew (every cut) in the form 'the whole call returns out -> the call on the prefix "
+               "returns firstn k out'; unconditionally (the call always returns) at the integer carrier for the extrema / rank "
+               "family and at option R for ts_vminmaxnorm on data bounded by the sentinels; for shift / vshift / vdiff / "
+               "vpct_change with every n >= 0 (a witness shows n < 0 reads ahead). (B) No dependence on pre-window data: two "
+               "series whose windows at positions i and j coincide give equal outputs there — exactly for min / max / arg-extrema "
+               "/ rank (axiom-free) and for the stateless slice form, and in exact arithmetic (option R) for the moment, ewm, wma, "
+               "cross-sum and trend accumulators with ANY emit function, for ts_vzscore (the state also remembers the current "
+               "element; the emitted value is still determined by the window), for ts_vminmaxnorm (bounded data) and for the three "
+               "regression-residual statistics (windows of both series). Still partial: at carriers other than Z / option R the "
+               "index-form prefix laws assume that the call on the whole series returns (no panic) — shown by the correspondence "
+               "runs, not proved for binary64; the window-only law of the accumulator families holds up to rounding in binary64 "
+               "(DESIGN 5.1/5.2), checked by the two-history runs. Tied to the code by relational runs on the implementation (all "
+               "cuts, bit for bit; two histories) plus the model run on every prefix.",
     level_note="Trusted: Coq kernel (+ Reals axioms for the window-only statements); the models of the rolling families; DESIGN 5.2 "
                "(finite bounded histories: an infinite or overflowing history poisons the accumulators forever) and 5.3 (omitted "
                "min_periods of the extrema/rank family only for len >= w).",
